@@ -13,7 +13,8 @@ least as long as the split point, for all inner specs -/
 theorem split_points_valid (len : Nat) (s0 s1 : Spec) :
     len ≤ advertised .mixedRadix .inplace len s0 s1 ∧ len ≤ advertised .mixedRadix .immut len s0 s1 ∧
     len ≤ advertised .goodThomas .inplace len s0 s1 ∧ len ≤ advertised .goodThomas .immut len s0 s1 ∧
-    len ≤ advertised .radixLike .inplace len s0 s1 ∧
+    len ≤ advertised .radixN .inplace len s0 s1 ∧ len ≤ advertised .radix4 .inplace len s0 s1 ∧
+    len ≤ advertised .radix3 .inplace len s0 s1 ∧
     s0.len ≤ advertised .raders .inplace len s0 s1 ∧ s0.len ≤ advertised .raders .immut len s0 s1 ∧
     (∀ n e, s0.len ≤ advertised (.bluesteins n) e len s0 s1) :=
   exec_split_points_valid len s0 s1
